@@ -203,6 +203,15 @@ M("tp21_abort_matched_without_pgn", ["C10"], "D42 reverted (J1939-21): abort mat
   ("j1939/j1939_21.py", "self._snd_buffer[buffer_hash]['pgn'] == pgn and ", ""))
 M("tp22_abort_matched_without_pgn", ["C10"], "D42 reverted (J1939-22): abort matched by address pair and session number only",
   ("j1939/j1939_22.py", "self._snd_buffer[buffer_hash]['pgn'] == pgn and ", ""))
+M("tp21_rts_interval_from_before_write", ["C09"], "D51 reverted (J1939-21): packet interval stamped before the write only",
+  ("j1939/j1939_21.py", "                                buf['last_dt_time'] = time.time()\n                                if buf['state'] == self.SendBufferState.SENDING_IN_CTS:\n                                    buf['deadline'] = max(buf['deadline'], buf['last_dt_time'] + self._minimum_tp_rts_cts_dt_interval)\n", "                                pass\n"))
+M("tp22_rts_interval_from_before_write", ["C09"], "D51 reverted (J1939-22): segment interval stamped before the write only",
+  ("j1939/j1939_22.py", "                                buf['last_dt_time'] = time.time()\n                                if buf['state'] == self.SendBufferState.SENDING_RTS_CTS:\n                                    buf['deadline'] = max(buf['deadline'], buf['last_dt_time'] + self._minimum_tp_rts_cts_dt_interval)\n", "                                pass\n"))
+M("unsubscribe_request_first_only", ["C12"], "D52 reverted: unsubscribe_request removes the first registration only",
+  ("j1939/controller_application.py", "        self._subscribers_request[:] = [cb for cb in self._subscribers_request if cb != callback]\n",
+   "        if callback in self._subscribers_request:\n            self._subscribers_request.remove(callback)\n"))
+M("request_dispatch_ignores_unsubscribe", ["C12"], "D53 reverted: the request dispatch calls callbacks unsubscribed meanwhile",
+  ("j1939/controller_application.py", "                if subscriber not in self._subscribers_request:\n", "                if False:\n"))
 M("dm1_notify_rereads_attributes", ["C16"], "D49 reverted: _notify_subscribers re-reads the attributes for every subscriber",
   ("j1939/diagnostic_messages.py", "            callback(sa, lamp_status.copy(), [dict(dtc_dic) for dtc_dic in dtc_dic_list], timestamp)",
    "            callback(sa, self._lamp_status.copy(), [dict(dtc_dic) for dtc_dic in self._dtc_dic_list], timestamp)"))
